@@ -11,7 +11,8 @@
 //! Documented ranges of the lazy forms (sources in the library):
 //!   forward lazy: inputs in [0,4q) -> outputs in [0,4q)   (src/util/rns.rs:725,732 ; src/util/ntt.rs:161-162)
 //!   inverse lazy: inputs in [0,2q) -> outputs in [0,2q)   (butterfly invariant of transform_from_rev with
-//!       ModArithLazy, src/util/dwthandler.rs:111-114 ; callers add 2q to the result, src/evaluator.rs:1296-1304)
+//!       ModArithLazy, src/util/dwthandler.rs:111-114 ; the caller Evaluator::switch_key_inplace in src/evaluator.rs
+//!       uses qi_lazy = 2q after intt_lazy and 4q after ntt_lazy)
 //! Inverse-lazy inputs in [2q,4q) are executed as out-of-precondition probes only.
 
 use crate::refm;
@@ -806,7 +807,7 @@ pub fn run(cfg: &Cfg, rep: &mut Report) -> PropMeta {
         rule: "degrees N = 2..2^11 (quick) / 2..2^13 (thorough) x moduli {every prime = 1 mod 2N below 2^12; the primes get_primes(2N, bits, k) yields for every bit size 2..61 where any exist (k = 3 quick / 5 thorough, 61 bits: 6 / 8); 2 seed-dependent random friendly primes per bit size}. Per (N,q): root checks (psi^N = -1, psi = brute-force minimal primitive 2N-th root, three independently constructed tables - one on another thread - word-identical, one more in a second process); ALL N unit vectors through forward strict, forward lazy (scaled by 1, q-1, 4q-1, random psi^d + kq < 4q), inverse strict, inverse lazy (scaled by 1, q-1, 2q-1, random < 2q) against the column formula; dense vectors (random, all(q-1), lazy maxima all(4q-1) / all(2q-1), boundary mixes) against the O(N^2) definition, both round trips; dyadic product of transforms vs schoolbook negacyclic product (N <= 512 quick / 2048 thorough; sparse x dense and the closed form of (sum X^i)^2 above); negacyclic_shift for EVERY s in 0..2N-1. For every N the sub-space {all primes q < 4096 with q = 1 mod 2N (they exist for N <= 128)} x all unit vectors x all shifts is enumerated completely. evaluations = vectors/shifts checked; distinct = (N, modulus bits, vector kind) classes",
         assumptions: vec![
             "u128 arithmetic of rustc; refm (Miller-Rabin with the 12 fixed bases is deterministic below 2^64)".into(),
-            "documented lazy ranges: forward [0,4q) -> [0,4q) (rns.rs:725-732, ntt.rs:161-162); inverse [0,2q) -> [0,2q) (butterfly invariant of transform_from_rev, callers in evaluator.rs:1296-1304). Inverse-lazy inputs in [2q,4q) are probed but counted out of precondition".into(),
+            "documented lazy ranges: forward [0,4q) -> [0,4q) (rns.rs:725-732, ntt.rs:161-162); inverse [0,2q) -> [0,2q) (butterfly invariant of transform_from_rev, switch_key_inplace in evaluator.rs uses qi_lazy = 2q after intt_lazy, 4q after ntt_lazy). Inverse-lazy inputs in [2q,4q) are probed but counted out of precondition".into(),
             "strict transforms, dyadic_product and negacyclic_shift take reduced inputs (< q); shifts are in [0,2N)".into(),
             "transforms are linear maps, so the N unit vectors determine them up to value-dependent reduction errors, which the dense and extreme vectors target".into(),
             "table agreement compares root, inv_degree_modulo, root_powers and inv_root_powers word for word (operand and quotient); the second process is this binary re-executed".into(),
